@@ -722,6 +722,73 @@ theorem prepare_rst_len (c : Conv) (k : KState) : ∀ g ∈ (prepare c k).2.1, g
     · exact absurd hgt (hl g hg)
 
 
+/-! ### a pass whose budget covers the queue drains it -/
+
+theorem call_cont_of_covered (c : Conv) (b : Block) (rest : List Block) (hm : 0 < c.mfs) (hi : c.incr = false)
+    (hw : (bodyLen (b :: rest) : Int) ≤ c.window) :
+    (call c b rest).cont = true ∨ (call c b rest).conv.abort = true := by
+  cases b with
+  | chunk d =>
+    simp only [call, callChunk, hi]
+    simp only [bodyLen_chunk] at hw
+    have h1 : (d.length : Int) ≤ c.window := by push_cast at hw; omega
+    by_cases h2 : d.length ≤ c.mfs
+    · simp [h1, h2]
+    · have hpos : 0 < c.window := by omega
+      have hlt : c.mfs < c.window.toNat := by omega
+      simp [h1, h2, hpos, hlt]
+  | flags eh es => simp [call, callFlags]
+  | hdr enc => simp only [call, callHdr]; split <;> (try split) <;> simp
+  | chunkHeader => simp [call]
+
+theorem prepareLoop_drain : ∀ (f : Nat) (c : Conv) (bs : List Block) (acc : List Frame),
+    0 < c.mfs → c.incr = false → c.abort = false → fuelOf bs ≤ f → (bodyLen bs : Int) ≤ c.window →
+    (prepareLoop f c bs acc).1.abort = false → (prepareLoop f c bs acc).2.2 = [] := by
+  intro f
+  induction f with
+  | zero => intro c bs acc _ _ _ hf; have := fuelOf_pos bs; omega
+  | succ f ih =>
+    intro c bs acc hm hi ha hf hw hres
+    cases bs with
+    | nil => simp [prepareLoop]
+    | cons b rest =>
+      obtain ⟨h1, _⟩ := call_exact c b rest hm hi
+      have hp := call_params c b rest
+      have hcw := call_window c b rest
+      have hbl := call_bodyLen c b rest
+      simp only [prepareLoop] at hres ⊢
+      split
+      · next hc =>
+        simp only [hc, if_true] at hres
+        obtain ⟨ha', hfu, _⟩ := h1 hc
+        refine ih _ _ _ (hp.1 ▸ hm) (hp.2.2.trans hi) (ha'.trans ha) (by omega) ?_ hres
+        rw [hcw.1]
+        have : (bodyLen (pushFront (call c b rest).pushback rest) : Int)
+            = (bodyLen (b :: rest) : Int) - (dataBytes (call c b rest).frames : Int) := by
+          have := hbl; omega
+        omega
+      · next hc =>
+        have hc' : (call c b rest).cont = false := by simpa using hc
+        simp only [hc', Bool.false_eq_true, if_false] at hres
+        rcases call_cont_of_covered c b rest hm hi hw with h | h
+        · rw [h] at hc'; cases hc'
+        · rw [h] at hres; cases hres
+
+theorem prepare_drain (c : Conv) (k : KState) (hm : 0 < c.mfs) (hi : c.incr = false) (ha : c.abort = false)
+    (hd : k.dead = false) (hw : (bodyLen k.blocks : Int) ≤ c.window) (hd' : (prepare c k).2.2.dead = false) :
+    (prepare c k).2.2.blocks = [] := by
+  unfold prepare finalize at hd' ⊢
+  simp only [hd, Bool.false_eq_true, if_false] at hd' ⊢
+  split
+  · next h => simp [h] at hd'
+  · next h =>
+    have h' : (prepareLoop (fuelOf k.blocks) c k.blocks []).1.abort = false := by simpa using h
+    exact prepareLoop_drain _ c k.blocks [] hm hi ha (Nat.le_refl _) hw h'
+
+theorem prepare_dead (c : Conv) (k : KState) (hd : k.dead = true) : (prepare c k).2.2.dead = true := by
+  simp [prepare, hd]
+
+
 /-! ### the sender ledger -/
 
 /-- the converter as `write_streams` sets it up for stream `st` -/
